@@ -80,6 +80,19 @@ def gen_program(rng):
             v = rng.choice([a for a in assigned + ["P1"] if a != k])
             spec = {"k": k, "v": v, "two": rng.random() < 0.4,
                     "q": rng.choice(assigned + ["P2"])}
+            # everything else through which the ODE system reads symbols: lag time, bioavailability, a zero-order
+            # input and several doses (infusion rate / duration) on the dosing compartment
+            pick = lambda: rng.choice(assigned + ["P1", "P2"])  # noqa: E731
+            if rng.random() < 0.5:
+                spec["lag"] = pick() if rng.random() < 0.5 else None
+                spec["bio"] = pick() if rng.random() < 0.5 else None
+                spec["inp"] = pick() if rng.random() < 0.3 else None
+                doses = []
+                for admid in range(1, rng.randint(1, 3) + 1):
+                    kind = rng.choice(["bolus", "rate", "dur"])
+                    doses.append([kind, None if kind == "bolus" else pick(), admid])
+                rng.shuffle(doses)
+                spec["doses"] = doses
             prog.append(("ode", spec))
             ode_done = True
             continue
@@ -125,7 +138,28 @@ def build(prog):
         else:
             spec = p[1]
             cb = CompartmentalSystemBuilder()
-            central = Compartment.create("CENTRAL", doses=(Bolus.create("AMT"),))
+            sym = sympy.Symbol
+            if "doses" in spec:
+                from pharmpy.model import Infusion
+
+                ds = []
+                for kind, name, admid in spec["doses"]:
+                    if kind == "bolus":
+                        ds.append(Bolus.create("AMT", admid=admid))
+                    elif kind == "rate":
+                        ds.append(Infusion.create("AMT", admid=admid, rate=sym(name)))
+                    else:
+                        ds.append(Infusion.create("AMT", admid=admid, duration=sym(name)))
+                kw = {}
+                if spec.get("lag"):
+                    kw["lag_time"] = sym(spec["lag"])
+                if spec.get("bio"):
+                    kw["bioavailability"] = sym(spec["bio"])
+                if spec.get("inp"):
+                    kw["input"] = sym(spec["inp"])
+                central = Compartment.create("CENTRAL", doses=tuple(ds), **kw)
+            else:
+                central = Compartment.create("CENTRAL", doses=(Bolus.create("AMT"),))
             cb.add_compartment(central)
             cb.add_flow(central, output, sympy.Symbol(spec["k"]) / sympy.Symbol(spec["v"]))
             if spec["two"]:
@@ -161,6 +195,12 @@ def rhs_names(p):
     s = {spec["k"], spec["v"], "AMT", "t"}
     if spec["two"]:
         s |= {spec["q"], "P3"}
+    for key in ("lag", "bio", "inp"):
+        if spec.get(key):
+            s.add(spec[key])
+    for kind, name, admid in spec.get("doses", ()):
+        if name:
+            s.add(name)
     return s
 
 
